@@ -647,6 +647,14 @@ func (st *State) typeFact(term string, t types.Type) {
 	if term == "null" || t == nil || st.quant > 0 {
 		return
 	}
+	if mt, isMap := t.Underlying().(*types.Map); isMap {
+		// maps of different types are different objects
+		main := "(or (= " + term + " null) (= (dyntype " + term + ") " + intLit(int64(st.e.typeTag(mt))) + "))"
+		if !st.knows(main) {
+			st.assume(main)
+		}
+		return
+	}
 	pt, ok := t.Underlying().(*types.Pointer)
 	if !ok {
 		return
